@@ -65,4 +65,87 @@ theorem NLFW.clear_way (hp : ClearLaw Ip e) (hn : ClearLaw In e) (ok : V → Boo
   congr 2
   cases refs <;> simp
 end
+/-! ### nodes that arrive AFTER a way (seed C12-7): the handler invariant along whole event streams -/
+section interleave
+variable {V : Type} {Ip In : Impl V} {e : V}
+
+/-- the nodes of the current handler life after the events `evs` (newest first), starting from `ns` -/
+def lifeNodes : List (Int × V) → List (Ev V) → List (Int × V)
+  | ns, [] => ns
+  | ns, .node id loc :: rest => lifeNodes ((id, loc) :: ns) rest
+  | _, .fresh :: rest => lifeNodes [] rest
+  | ns, _ :: rest => lifeNodes ns rest
+
+/-- the `ignore_errors` setting after the events -/
+def ignAfter : Bool → List (Ev V) → Bool
+  | ign, [] => ign
+  | _, .ignoreErrors :: rest => ignAfter true rest
+  | ign, _ :: rest => ignAfter ign rest
+
+/-- The invariant of the `m_must_sort` / `m_last_id` state machine holds after EVERY prefix of EVERY stream in the
+    domain — nodes, ways, more nodes, more ways, in any order: whenever `m_must_sort` is false both indexes are
+    ready for lookups and no node seen in this handler life has |id| above `m_last_id`. -/
+theorem NInv.run_state {Lp : Laws Ip e} {Ln : Laws In e} (ok : V → Bool) (ign0 : Bool) :
+    ∀ (evs : List (Ev V)) (c : RunSt Ip In) (ign : Bool) (ns : List (Int × V)), NInv Lp Ln ign c.h ns →
+      EvsOk e ns evs →
+      NInv Lp Ln (ignAfter ign evs) (NLFW.run ok (NLFW.init Ip In ign0) c evs).1.h (lifeNodes ns evs) := by
+  intro evs
+  induction evs with
+  | nil => intro c ign ns hi _; simpa [NLFW.run, lifeNodes, ignAfter] using hi
+  | cons ev rest ih =>
+    intro c ign ns hi hok
+    cases ev with
+    | node id loc =>
+      simp only [NLFW.run, lifeNodes, ignAfter]
+      exact ih _ _ _ (hi.node id loc (EvsOk.nodesOk (ns := (id, loc) :: ns) hok)) hok
+    | way refs =>
+      have hok' : EvsOk e ns rest := hok
+      simp only [NLFW.run, lifeNodes, ignAfter]
+      exact ih _ ign ns (hi.way hok'.nodesOk ok refs).1 hok'
+    | again k =>
+      have hok' : EvsOk e ns rest := hok
+      simp only [NLFW.run, lifeNodes, ignAfter]
+      exact ih _ ign ns (hi.way hok'.nodesOk ok (c.ways.getD k [])).1 hok'
+    | ignoreErrors =>
+      have hok' : EvsOk e ns rest := hok
+      simp only [NLFW.run, lifeNodes, ignAfter]
+      exact ih _ _ _ hi.setIgnoreErrors hok'
+    | clear => exact absurd hok (by simp [EvsOk])
+    | fresh =>
+      have hok' : EvsOk e [] rest := hok.2
+      simp only [NLFW.run, lifeNodes, ignAfter]
+      have hf : NInv Lp Ln ign ({ NLFW.init Ip In ign0 with ignoreErrors := c.h.ignoreErrors }) [] := by
+        have := NInv.init Lp Ln ign
+        rw [← hi.ign_eq] at this ⊢
+        exact this
+      exact ih _ _ _ hf hok'
+
+/-- a batch of nodes as events -/
+def nodeEvs (ns : List (Int × V)) : List (Ev V) := ns.map fun p => Ev.node p.1 p.2
+
+theorem evsOk_nodeEvs : ∀ (b : List (Int × V)) (ns : List (Int × V)) (rest : List (Ev V)),
+    EvsOk e ns (nodeEvs b ++ rest) ↔ EvsOk e (b.reverse ++ ns) rest := by
+  intro b
+  induction b with
+  | nil => intro ns rest; simp [nodeEvs]
+  | cons p t ih =>
+    intro ns rest
+    have := ih (p :: ns) rest
+    simp only [nodeEvs, List.map_cons, List.cons_append, EvsOk, List.reverse_cons, List.append_assoc] at this ⊢
+    exact this
+
+theorem specRun_nodeEvs (ok : V → Bool) : ∀ (b : List (Int × V)) (ign : Bool) (ns : List (Int × V))
+    (ws : List (List Int)) (rest : List (Ev V)),
+    specRun ok e ign ns ws (nodeEvs b ++ rest) = specRun ok e ign (b.reverse ++ ns) ws rest := by
+  intro b
+  induction b with
+  | nil => intro ign ns ws rest; simp [nodeEvs]
+  | cons p t ih =>
+    intro ign ns ws rest
+    have := ih ign (p :: ns) ws rest
+    simp only [nodeEvs, List.map_cons, List.cons_append, specRun, List.reverse_cons, List.append_assoc] at this ⊢
+    exact this
+
+end interleave
+
 end Osmium.IndexMap
